@@ -157,6 +157,22 @@ func evalC18(c c18Case, o *Obs) error {
 		return fmt.Errorf("%s: IsSorted = %v, BIP69 order holds = %v", desc, got, wantSorted)
 	}
 	s := txsort.Sort(tx)
+	// other transactions are sorted before s is examined: results must not share storage between calls
+	rev := c.build()
+	for i, j := 0, len(rev.TxIn)-1; i < j; i, j = i+1, j-1 {
+		rev.TxIn[i], rev.TxIn[j] = rev.TxIn[j], rev.TxIn[i]
+	}
+	for i, j := 0, len(rev.TxOut)-1; i < j; i, j = i+1, j-1 {
+		rev.TxOut[i], rev.TxOut[j] = rev.TxOut[j], rev.TxOut[i]
+	}
+	for _, in := range rev.TxIn {
+		in.PreviousOutPoint.Index ^= 0x7
+	}
+	sr := txsort.Sort(rev)
+	txsort.InPlaceSort(rev)
+	if keySeq(sr) != keySeq(rev) {
+		return fmt.Errorf("%s: Sort and InPlaceSort disagree on a second transaction", desc)
+	}
 	// original untouched
 	after, _ := serializeTx(tx)
 	if !bytes.Equal(before, after) {
